@@ -60,8 +60,8 @@ def render(lines):
     return '\n'.join(atom_text(x) if x['k'] == 'a' else x['text'] for x in lines) + '\n'
 
 
-def header(latt=-1, symm=(), sfac=('C', 'H', 'O'), fvar=(0.5,), extra=()):
-    out = [L('TITL c08 test'), L('CELL 0.71073 10.0 11.0 12.0 90 95 90'), L('ZERR 4 0.001 0.001 0.001 0 0.01 0'), L(f'LATT {latt}')]
+def header(latt=-1, symm=(), sfac=('C', 'H', 'O'), fvar=(0.5,), extra=(), cell='0.71073 10.0 11.0 12.0 90 95 90', z=4):
+    out = [L('TITL c08 test'), L(f'CELL {cell}'), L(f'ZERR {z} 0.001 0.001 0.001 0 0.01 0'), L(f'LATT {latt}')]
     out += [L(f'SYMM {s}') for s in symm]
     out += [L('SFAC ' + ' '.join(sfac)), L('UNIT ' + ' '.join(str(4 * (i + 1)) for i in range(len(sfac))))]
     out += [L('TEMP -100'), L('L.S. 10'), L('PLAN 20'), L('LIST 4')]
@@ -89,25 +89,32 @@ def file_twins():
 
 
 def file_other():
-    """a different file: centred lattice with symmetry, more elements and free variables, no twins"""
-    f = header(latt=2, symm=('-X, 1/2+Y, 1/2-Z',), sfac=('C', 'H', 'N', 'S'), fvar=(0.75, 0.4, 0.6),
-               extra=['SIMU 0.04 N1 Sx1', 'WGHT 0.1', 'OMIT 1 0 0', 'EQIV $1 -X, -Y, -Z'])
-    f += [A('N1', 3, (0.11, 0.21, 0.31), sof=21.0), A('Sx1', 4, (0.12, 0.22, 0.32), sof=-21.0),
-          L('AFIX 137'), A('H1A', 2, (0.2, 0.3, 0.4), u=(-1.5,)), A('H1B', 2, (0.21, 0.31, 0.41), u=(-1.5,)), L('AFIX 0'),
-          A('C7', 1, (0.9, 0.8, 0.7), u=(0.03, 0.03, 0.03, 0.0, 0.01, 0.0)),
+    """a different file. Everything a value remembered from the previous read could get wrong differs from file 0:
+    SFAC order (hydrogen is scattering factor 4 here, 2 there; number 1 is oxygen, not carbon), cell and wavelength, Z,
+    centred lattice with a SYMM card, free variables (number and values), atom names reused for other elements and
+    residues, occupancies tied to other free variables, which atoms ride, no text twins, no Q-peaks"""
+    f = header(latt=2, symm=('-X, 1/2+Y, 1/2-Z',), sfac=('O', 'N', 'S', 'H', 'C'), fvar=(0.75, 0.4, 0.6), z=2,
+               cell='1.54178 7.5 8.25 19.0 90 101.5 90',
+               extra=['SIMU 0.04 N1 Sx1', 'WGHT 0.1', 'OMIT 1 0 0', 'EQIV $1 -X, -Y, -Z', 'DFIX 1.4 C1 C2'])
+    f += [A('N1', 2, (0.11, 0.21, 0.31), sof=21.0), A('Sx1', 3, (0.12, 0.22, 0.32), sof=-21.0),
+          A('C1', 1, (0.4, 0.2, 0.3), sof=31.0), A('C2', 5, (0.15, 0.25, 0.35), sof=10.5),
+          L('AFIX 137'), A('H1A', 4, (0.2, 0.3, 0.4), u=(-1.5,)), A('H3', 5, (0.21, 0.31, 0.41), u=(-1.5,)), L('AFIX 0'),
+          L('RESI 4 BBB'), A('C7', 5, (0.9, 0.8, 0.7), u=(0.03, 0.03, 0.03, 0.0, 0.01, 0.0), resi=4), L('RESI 0'),
           L('HKLF 4'), L('END')]
     return f
 
 
 def random_file(rng):
     els = ['C', 'H'] + rng.sample(['N', 'O', 'F', 'S', 'Cl', 'Br'], rng.randint(1, 3))
+    rng.shuffle(els)       # the scattering-factor number of an element differs from file to file
     latt = rng.choice([-1, 1, -2, 2, -7, 7, -4])
     symm = rng.choice([(), ('-X, 1/2+Y, -Z',), ('-X, -Y, 1/2+Z', '1/2+X, 1/2-Y, -Z')])
     fv = [round(rng.uniform(0.1, 1.0), 5) for _ in range(rng.randint(1, 4))]
     restr = ['SADI C1 C2', 'REM note', 'DFIX 1.5 C1 C2', 'SIMU C1 > C9', 'RIGU', 'DELU C1 C2', 'REM other', '', 'BOND $H', 'CONF', 'ACTA',
              'FMAP 2', 'SIZE 0.1 0.2 0.3', 'WGHT 0.05 0.2', 'HTAB', 'EQIV $1 -X, -Y, -Z', 'OMIT 1 0 0']
     extra = [rng.choice(restr) for _ in range(rng.randint(0, 6))]
-    f = header(latt=latt, symm=symm, sfac=els, fvar=fv, extra=extra)
+    cell = rng.choice(['0.71073 10.0 11.0 12.0 90 95 90', '1.54178 8.0 8.0 15.5 90 90 120', '0.56086 6.5 9.25 13.0 80 85 75'])
+    f = header(latt=latt, symm=symm, sfac=els, fvar=fv, extra=extra, cell=cell, z=rng.choice([1, 2, 4, 8]))
     atoms = []
     nat = rng.randint(2, 9)
     resi = 0
@@ -139,7 +146,7 @@ def random_file(rng):
             if el == 'H':
                 u = (rng.choice([-1.2, -1.5]),)   # mixed-case names ('Cl1', 'Br2') stay as written: look-ups upper-case them
             a = A(f'{el}{rng.randint(1, 5)}{rng.choice(["", "", "A"])}'[:4], s, tuple(round(rng.uniform(0.01, 0.99), 6) for _ in range(3)),
-                  sof=rng.choice([11.0, 11.0, 10.5, 21.0 if len(fv) > 1 else 11.0]), u=u, resi=resi)
+                  sof=rng.choice([11.0, 11.0, 10.5, 21.0 if len(fv) > 1 else 11.0, -21.0 if len(fv) > 1 else 10.25, 31.0 if len(fv) > 2 else 11.0]), u=u, resi=resi)
         atoms.append(a)
         f.append(a)
     if in_afix:
@@ -195,7 +202,58 @@ def canon(v, depth=0):
 def state_of(shx):
     """everything the object holds after a read, in a comparable form (public and private attributes alike:
     `resets all state`); file paths reduced to 'path'"""
-    return {k: canon(v) for k, v in vars(shx).items()}
+    d = {k: canon(v) for k, v in vars(shx).items()}
+    d.update(derived(shx))
+    return d
+
+
+def _try(f):
+    try:
+        return canon(f())
+    except Exception as e:        # the same call raises the same way in a fresh process, or the difference is reported
+        return f'raise {type(e).__name__}'
+
+
+def derived(shx):
+    """what the API *computes* from the stored state (elements, occupancies, formulae, views, symmetry, cell): a value
+    remembered from an earlier read (memo, cache, default argument, closure) shows here and nowhere in `vars(shx)`"""
+    at = shx.atoms
+    per_atom = []
+    for a in at.all_atoms:
+        per_atom.append([_try(lambda: a.fullname), _try(lambda: a.element), _try(lambda: a.an), _try(lambda: a.radius),
+                         _try(lambda: a.is_hydrogen), _try(lambda: a.fvar), _try(lambda: a.occupancy), _try(lambda: a.resiclass),
+                         _try(lambda: a.resinum), _try(lambda: a.part.n), _try(lambda: a.afix.mn if a.afix else None),
+                         _try(lambda: a.pivot.fullname if a.pivot else None), _try(lambda: a.qpeak), _try(lambda: a.is_isotropic),
+                         _try(lambda: list(a.cart_coords)), _try(lambda: a.atomid), _try(lambda: a.ueq)])
+    names = lambda l: [x.fullname for x in l]
+    out = {
+        '<atoms>': per_atom,
+        '<hydrogen_atoms>': _try(lambda: names(at.hydrogen_atoms)),
+        '<riding_atoms>': _try(lambda: names(at.riding_atoms)),
+        '<q_peaks>': _try(lambda: names(at.q_peaks)),
+        '<nameslist>': _try(lambda: list(at.nameslist)),
+        '<atom counts>': _try(lambda: [at.number, at.n_hydrogen_atoms, at.n_anisotropic_atoms, at.n_isotropic_atoms,
+                                       at.n_anisotropic_hydrogen_atoms, at.n_hydrogen_atoms_with_constr_u_val]),
+        '<residues>': _try(lambda: sorted(at.residues)),
+        '<coordinates>': _try(lambda: at.get_all_atomcoordinates()),
+        '<sum_formula>': _try(lambda: shx.sum_formula),
+        '<sum_formula_exact>': _try(lambda: shx.sum_formula_exact),
+        '<sum_formula_exact_as_dict>': _try(lambda: shx.sum_formula_exact_as_dict()),
+        '<formula_weight>': _try(lambda: shx.formula_weight),
+        '<sfac>': _try(lambda: [list(shx.sfac_table), list(shx.sfac_table.elements_list),
+                                [shx.elem2sfac(e) for e in shx.sfac_table.elements_list],
+                                [shx.sfac2elem(i) for i in range(1, len(shx.sfac_table.elements_list) + 2)]]),
+        '<unit>': _try(lambda: list(shx.unit.values)),
+        '<fvars>': _try(lambda: [shx.fvars.as_stringlist, shx.fvars.fvars_used(), [shx.fvars[i] for i in range(1, len(shx.fvars) + 1)]]),
+        '<cell>': _try(lambda: [list(shx.cell), shx.cell.volume, shx.wavelength, shx.Z]),
+        '<symm>': _try(lambda: [[x.to_shelxl(), bool(x.centric)] for x in shx.symmcards]),
+        '<latt>': _try(lambda: [shx.latt.N, shx.latt.centric, [x.to_shelxl() for x in shx.latt.latt_ops]]),
+        '<restraints>': _try(lambda: [[str(r), list(r.atoms), r.residue_class, r.index] for r in shx.restraints]),
+        '<restraint_errors>': _try(lambda: list(shx.restraint_errors)),
+        '<positions>': _try(lambda: [getattr(shx, n).position for n in ('unit', 'cycles', 'plan', 'hklf', 'fvars') if getattr(shx, n, None) is not None]),
+        '<text>': _try(lambda: repr(shx)),
+    }
+    return out
 
 
 def fresh_process_state(text):
@@ -708,7 +766,7 @@ def alphabet(files):
     """small alphabet for the bounded-exhaustive part, chosen on file 0 (twins): second twin = atom 2, O1 twins 6/7, C4 twins 8/9"""
     return [['del_id', 2], ['del_id', 0], ['delete', 2], ['delete', 9], ['del_name', 1], ['add_line', 'unit', 'rem'],
             ['add_line', ['atom', 0], ['copy', 1]], ['add_line', 'cycles', 'sadi'], ['rename', 1, 'C9'], ['rename', 2, 'C2'],
-            ['element', 3, 'N'], ['to_iso', 4], ['plan', 7], ['cycles', 3], ['read_string', 0], ['read_string', 1], ['read_file', 0], ['reload']]
+            ['element', 3, 'N'], ['to_iso', 4], ['plan', 7], ['cycles', 3], ['read_string', 0], ['read_string', 1], ['read_file', 0], ['read_file', 1], ['reload']]
 
 
 def random_walk(rng, nfiles, length):
@@ -743,7 +801,7 @@ def random_walk(rng, nfiles, length):
 
 
 def run(ctx):
-    ctx.rule = ('histories of API calls on one long-lived Shelxfile object: bounded-exhaustive over a 16/18-letter alphabet '
+    ctx.rule = ('histories of API calls on one long-lived Shelxfile object: bounded-exhaustive over a 19-letter alphabet (quick: length <= 2, and length 3 over 11 core letters; thorough: length 3, and length 4 over the edit letters) '
                 '(deletes by id/handle/name, add_line incl. a copy of an atom line, renames, element, to_isotropic, PLAN/L.S. setters, '
                 'read_string/read_file/reload of two files) on a file with text-identical atoms and instructions, plus random walks on '
                 'random files; distinct by (files, ops); non-trivial = at least two applicable calls; the object graph is examined after '
@@ -755,24 +813,29 @@ def run(ctx):
     files = [f0, f1]
     alpha = alphabet(files)
     depth = ctx.budget(3, 4)
-    if depth < 4:
-        alpha = [a for a in alpha if a[0] not in ('cycles', 'reload')]      # same mechanisms as plan / read_file; in the walks
     cases = []
+    edit = [a for a in alpha if a[0] not in ('read_file', 'reload', 'plan', 'cycles', 'to_iso')]
+    core3 = [a for a in alpha if a in (['del_id', 2], ['delete', 2], ['delete', 9], ['del_name', 1], ['add_line', ['atom', 0], ['copy', 1]],
+                                       ['rename', 1, 'C9'], ['rename', 2, 'C2'], ['element', 3, 'N'], ['read_string', 0], ['read_string', 1],
+                                       ['read_file', 1])]
     if depth >= 4:
         # depth 4 over the full alphabet is 105k histories; take all of depth 3 and every depth-4 history over the edit letters
-        edit = [a for a in alpha if a[0] not in ('read_file', 'reload', 'plan', 'cycles', 'to_iso')]
         for seq in itertools.product(alpha, repeat=3):
             cases.append(dict(files=files, ops=[['read_string', 0]] + [list(x) for x in seq]))
         for seq in itertools.product(edit, repeat=4):
             cases.append(dict(files=files, ops=[['read_string', 0]] + [list(x) for x in seq]))
     else:
-        for d in range(1, depth + 1):
+        # quick: every history of length <= 2 over the full alphabet, every history of length 3 over the core letters
+        for d in (1, 2):
             for seq in itertools.product(alpha, repeat=d):
                 cases.append(dict(files=files, ops=[['read_string', 0]] + [list(x) for x in seq]))
+        for seq in itertools.product(core3, repeat=3):
+            cases.append(dict(files=files, ops=[['read_string', 0]] + [list(x) for x in seq]))
     ctx.exhaustive = True
     ctx.extra['enumeration'] = (f'all histories of length 3 over {len(alpha)} letters and all of length 4 over the {len(edit)} edit/read_string letters, '
                                 f'after read_string(file 0): {len(cases)}' if depth >= 4 else
-                                f'all histories of length <= {depth} over {len(alpha)} letters after read_string(file 0): {len(cases)}')
+                                f'all histories of length <= 2 over {len(alpha)} letters and all of length 3 over {len(core3)} core letters, '
+                                f'after read_string(file 0): {len(cases)}')
     # witnesses of the Lean development, replayed on the implementation in every run
     cases.insert(0, dict(files=files, ops=[['read_string', 0], ['delete', 2]]))
     cases.insert(1, dict(files=files, ops=[['read_string', 0], ['rename', 1, 'C9']]))
